@@ -78,10 +78,11 @@ def mon(ctx, ana, case):
             ctx.count('manual_duty_cycle_scenarios')
     b = getattr(ctx, 'current_built', None)
     flags = None
-    if b is not None and b.probe_log:
+    plog = getattr(ana.tr, 'probe_log', None)
+    if b is not None and plog:
         # probe entry j was logged after instant (n-1) was recorded; instant 0 of a fresh run has no probe call
         flags = [None] * ana.tr.n
-        for n, bad, flag in b.probe_log:
+        for n, bad, flag in plog:
             if 0 < n <= ana.tr.n:
                 flags[n - 1] = flag
             if bad:
